@@ -6,7 +6,7 @@
     [iso g h] = some map injective on the nodes of g relabels g into h up to [geq]. *)
 From Coq Require Import List NArith ZArith Bool Arith Permutation.
 From SK Require Import lib.IRSortKeys lib.IRCore lib.IRSearch model.C18_Model model.C18_AttrModel model.C18_WLModel model.C18_BackendModel model.C18_DepthModel model.C18_IntIdsModel model.C18_UFModel model.C18_AutAttrModel model.C18_SpAttrModel model.C18_RunModel proof.C18_Attr proof.C18_Order proof.C18_Spec
-  proof.C18_Graph proof.C18_Canon proof.C18_Equiv proof.C18_Label proof.C18_Aut proof.C18_Invariant proof.C18_Wf proof.C18_Count proof.C18_View proof.C18_Vf2 proof.C18_Vf2Count proof.C18_Refine proof.C18_NetBip proof.C18_Net proof.C18_NetSp proof.C18_Orbits proof.C18_OrbSound proof.C18_OrbComplete proof.C18_OrbCanon proof.C18_Maps proof.C18_WL proof.C18_Backend proof.C18_Depth proof.C18_IntIds proof.C18_UF proof.C18_AutAttr proof.C18_SpAttr proof.C18_Examples.
+  proof.C18_Graph proof.C18_Canon proof.C18_Equiv proof.C18_Label proof.C18_Aut proof.C18_Invariant proof.C18_Wf proof.C18_Count proof.C18_View proof.C18_Vf2 proof.C18_Vf2Count proof.C18_Refine proof.C18_NetBip proof.C18_Net proof.C18_NetSp proof.C18_Orbits proof.C18_OrbSound proof.C18_OrbComplete proof.C18_OrbCanon proof.C18_Maps proof.C18_WL proof.C18_Backend proof.C18_Depth proof.C18_IntIds proof.C18_UF proof.C18_AutAttr proof.C18_SpAttr proof.C18_AttrEquiv proof.C18_Examples.
 From SK Require Import lib.C18_IRValid.
 From SK Require lib.IRInst.
 Import ListNotations.
@@ -458,3 +458,52 @@ Theorem C18_wl_coarser_than_orbits : forall (g : vgraph) (lab p : list N) (inb o
     col_get (wl_colors g [] [NKind] [ERole; EStoich] inb outb n_iter) u = col_get (wl_colors g [] [NKind] [ERole; EStoich] inb outb n_iter) v.
 Proof. exact wl_coarser_than_orbits. Qed.
 Print Assumptions C18_wl_coarser_than_orbits.
+
+(** Clause 2 for EVERY attribute selection, first half (bipartite view).  Full statement (not proved): under the premises below the
+    canonical graphs are [geq] on the selected attributes.  Proved: the renamed, re-presented view [g'] (with the label table renamed
+    along, [relab_tab]) receives the SAME minimal label, and its minimal leaves are exactly the renamed minimal leaves of [g] -- so
+    automorphism_count is invariant.  Missing for the full statement: reading the selected attributes back from [labelA]
+    (the analogue of label_read; impossible in general when 'label' is selected and names contain '|' or ':').
+    Proof: the generic leaf-enumeration equivariance of lib/IRCore instantiated with the selection's signature, initial partition
+    and label (proof/C18_AttrEquiv.v). *)
+Theorem C18_attr_invariant_partial : forall (f : N -> N), (forall x y, f x = f y -> x = y) ->
+  forall (g g' : vgraph) (t : ltab) (nk : list nsel) (ek : list esel),
+  wf g -> geq g' (relabel f g) ->
+  option_map fst (fst (canon_searchA g' (relab_tab f t) nk ek)) = option_map fst (fst (canon_searchA g t nk ek)) /\
+  Permutation (map (map f) (snd (canon_searchA g t nk ek))) (snd (canon_searchA g' (relab_tab f t) nk ek)).
+Proof. exact attr_invariant_partial. Qed.
+Print Assumptions C18_attr_invariant_partial.
+
+(** the same for the selections on the species view (aggregates stoich_r / stoich_p) *)
+Theorem C18_spattr_invariant_partial : forall (f : N -> N), (forall x y, f x = f y -> x = y) ->
+  forall (g g' : vgraph) (t : ltab) (nk : list nsel) (ek : list sesel),
+  wf g -> geq g' (relabel f g) ->
+  option_map fst (fst (canon_searchS g' (relab_tab f t) nk ek)) = option_map fst (fst (canon_searchS g t nk ek)) /\
+  Permutation (map (map f) (snd (canon_searchS g t nk ek))) (snd (canon_searchS g' (relab_tab f t) nk ek)).
+Proof. exact spattr_invariant_partial. Qed.
+Print Assumptions C18_spattr_invariant_partial.
+
+(** Clause 4 for EVERY attribute selection, sound half.  Full statement (not proved): the minimal leaves are EXACTLY the images of the
+    best permutation under the self-maps that preserve the selected attributes ([is_autG]: injective on the nodes, nodes to nodes,
+    selected node attributes as compared and as printed, presence and selected attributes of every arc).  Proved: every such
+    self-map sends minimal leaves to minimal leaves and is determined on the nodes by the image of one minimal leaf -- hence
+    automorphism_count is AT LEAST the number of these self-maps (it can only over-count if [labelA] fails to separate, see above). *)
+Theorem C18_attr_count_lower_partial : forall (g : vgraph) (t : ltab) (nk : list nsel) (ek : list esel),
+  wf g ->
+  (forall s q, is_autG g (fun v => map (nval g t v) nk) (fun a => map (eval a) ek) s ->
+     In q (snd (canon_searchA g t nk ek)) -> In (map s q) (snd (canon_searchA g t nk ek))) /\
+  (forall (s s' : N -> N) q, In q (snd (canon_searchA g t nk ek)) -> map s q = map s' q ->
+     forall v, In v (node_ids g) -> s v = s' v).
+Proof.
+  exact (fun g t nk ek Hw => conj (fun s q => attr_count_lower_partial g t nk ek s q Hw)
+           (fun s s' q Hq => autG_determined g (nvA g t nk) (evA ek) (length nk) (length ek) Hw s s' q
+                               (eq_ind _ (fun a => In q (snd a)) Hq _ (canon_searchA_G g t nk ek)))).
+Qed.
+Print Assumptions C18_attr_count_lower_partial.
+
+Theorem C18_spattr_count_lower_partial : forall (g : vgraph) (t : ltab) (nk : list nsel) (ek : list sesel),
+  wf g ->
+  forall s q, is_autG g (fun v => map (nval g t v) nk) (fun a => map (evalS a) ek) s ->
+    In q (snd (canon_searchS g t nk ek)) -> In (map s q) (snd (canon_searchS g t nk ek)).
+Proof. exact (fun g t nk ek Hw s q => spattr_count_lower_partial g t nk ek s q Hw). Qed.
+Print Assumptions C18_spattr_count_lower_partial.
